@@ -100,6 +100,23 @@ def newline_piece(rng, cr_corners):
     return rng.choice(forms)
 
 
+def cr_round_trip(rng):
+    """CR and LF separated by style changes that END IN THE STYLE THE CR WAS WRITTEN IN (the extractor still
+    cuts the text there): s T CR s' s LF, s T CR 1 0 LF after a reset, and the invert spellings of one style"""
+    s1 = style_seq(rng)
+    k = rng.randrange(5)
+    t1, t2 = text_piece(rng) or "ab", text_piece(rng)
+    if k == 0:
+        return s1 + t1 + "\r" + style_seq(rng) + s1 + "\n" + t2
+    if k == 1:
+        return "\x1b[0m" + t1 + "\r\x1b[1m\x1b[0m\n" + t2
+    if k == 2:
+        return s1 + t1 + "\r" + style_seq(rng) + style_seq(rng) + s1 + "\r\n" + t2
+    if k == 3:
+        return "\x1b[0;30;47m" + t1 + "\r\x1b[0;7m\n" + t2 + "\x1b[0;37;40m" + t1 + "\r\x1b[0;7m\n"
+    return s1 + t1 + "\r" + s1 + "\n" + t2 + "\r\x1b[3m" + s1 + "\n"
+
+
 def directed(rng, cr_corners=False):
     out = []
     for _ in range(rng.choice([1, 2, 3, 5, 8])):
@@ -205,6 +222,7 @@ class C14(Prop):
         groups.append(("directed(specials,wide,zero-width,line-ends,invert,colour-kinds)", [clean(directed(rng)) for _ in range(n)]))
         groups.append(("colour-kind-per-slot x invert", exhaustive_styles()))
         groups.append(("invert-against-configured-defaults", [invert_defaults(rng) for _ in range(n // 3)]))
+        groups.append(("cr-lf-separated-by-a-style-round-trip", [clean(cr_round_trip(rng)) for _ in range(n // 4)]))
         groups.append(("carriage-return-corners", [clean(directed(rng, True)) for _ in range(n // 3)] + [clean(from_sgrgen(rng, True)) for _ in range(n // 3)]))
         return groups
 
